@@ -409,8 +409,8 @@ oldunpackvs(VDATA *vs, uint8 buf[], int32 *size)
         bb += (strlen(vs->wlist.name[i]) + 1);
     }
 
-    strcpy(vs->vsname, (char *)bb);
-    bb += (strlen(vs->vsname) + 1);
+    HIstrncpy(vs->vsname, (char *)bb, VSNAMELENMAX + 1); /* fixed-size buffer: truncate longer names */
+    bb += (strlen((char *)bb) + 1);
 
     /* **EXTRA**  fill in the machine-dependent size fields */
     for (i = 0; i < vs->wlist.n; i++) /* FAIL check on VSIZEOF()? */
